@@ -470,7 +470,7 @@ fn judge_c06(o: &mut Outcome, ops: &[Op], policy: u8, r: &CaseOut) {
         return;
     }
     for v in &r.violations {
-        o.violation("c06b:protocol-violation-seen-by-node", v.clone(), json!({}));
+        o.node_violation("c06b", &v, json!({}));
     }
     for op in ops {
         let frames = r.frames.get(&op.op).cloned().unwrap_or_default();
@@ -650,7 +650,7 @@ fn judge_c13(o: &mut Outcome, ops: &[Op], max: usize, interval: u64, r: &CaseOut
         return;
     }
     for v in &r.violations {
-        o.violation("c13b:protocol-violation-seen-by-node", v.clone(), json!({}));
+        o.node_violation("c13b", &v, json!({}));
     }
     for op in ops {
         let frames = r.frames.get(&op.op).cloned().unwrap_or_default();
